@@ -211,6 +211,182 @@ theorem recover_idempotent_partial (d : Disk) (v : View) (hv : view d = .ok v) (
   have h := crash_before_last v d (recoverPrefix d v) PStep.renameTmp k p hh hk
   exact ⟨view_agree h.1 (by rw [h.2.1]) h.2.2 hv, abs_agree h.1⟩
 
+
+/-! ## the state after recovery's `rename`, and crashes at every position of recovery -/
+
+theorem view_of_parts {d : Disk} {v : View} (ht : d.torn = false)
+    (hl : View.empty.applyRecs (replay d.recs) = .ok v) (hf : filesOk d v = true) : view d = .ok v := by
+  simp [view, ht, hl, hf]
+
+theorem recoverPrefix_harmless (d : Disk) (v : View) : ∀ x ∈ recoverPrefix d v, Harmless v x := by
+  intro x hx
+  simp only [recoverPrefix, List.mem_append, List.mem_map, List.mem_cons, List.mem_nil_iff, or_false] at hx
+  rcases hx with (((hx | hx) | hx) | ⟨o, ho, hx⟩) | hx | hx
+  · split at hx <;> simp at hx; subst hx; exact Or.inr (Or.inl rfl)
+  · split at hx <;> simp at hx; subst hx; exact Or.inr (Or.inr (Or.inl rfl))
+  · split at hx <;> simp at hx; subst hx; exact Or.inr (Or.inr (Or.inr (Or.inl rfl)))
+  · subst hx
+    left
+    simp only [orphans, List.mem_filter] at ho
+    simp only [Fresh]
+    intro hmem
+    have := ho.2
+    simp [hmem] at this
+  · subst hx; exact Or.inr (Or.inr (Or.inr (Or.inr (Or.inl rfl))))
+  · subst hx; exact Or.inr (Or.inr (Or.inr (Or.inr (Or.inr ⟨_, rfl⟩))))
+
+/-- The directory recovery leaves behind. -/
+theorem applyAll_recoverSteps (d : Disk) (v : View) :
+    d.applyAll (recoverSteps d v) =
+      { d.applyAll (recoverPrefix d v) with recs := rewriteRecs v, torn := false, tmp := none, shadow := some (d.applyAll (recoverPrefix d v)).recs } := by
+  have htmp : (d.applyAll (recoverPrefix d v)).tmp = some (rewriteRecs v, false) := by
+    simp [recoverPrefix, Disk.applyAll, List.foldl_append, Disk.apply]
+  rw [recoverSteps_eq]
+  have happ : d.applyAll (recoverPrefix d v ++ [PStep.renameTmp]) = (d.applyAll (recoverPrefix d v)).apply .renameTmp .full := by
+    simp [Disk.applyAll, List.foldl_append]
+  rw [happ]
+  generalize d.applyAll (recoverPrefix d v) = d1 at htmp ⊢
+  simp only [Disk.apply, htmp]
+
+/-- **The recovered store's rewritten manifest replays to the same state**: for every directory
+that opens, the directory recovery leaves opens again, to a view with the same tables, row-sets and
+delete vectors (only the id counters are re-derived), hence the same contents. -/
+theorem recover_after_rename (d : Disk) (v : View) (hv : view d = .ok v) :
+    ∃ n m, view (d.applyAll (recoverSteps d v)) = .ok { v with nextR := n, nextD := m } ∧
+      abs (d.applyAll (recoverSteps d v)) { v with nextR := n, nextD := m } = abs d v := by
+  obtain ⟨n, m, hload⟩ := load_rewrite v (canon_of_view hv)
+  have h1 := agree_applyAll_harmless v (recoverPrefix d v) (recoverPrefix_harmless d v) d
+  have hag : Agree v d (d.applyAll (recoverSteps d v)) := by
+    rw [applyAll_recoverSteps]
+    exact ⟨fun x hx => h1.1.1 x hx, fun x hx => h1.1.2 x hx⟩
+  refine ⟨n, m, ?_, ?_⟩
+  · apply view_of_parts
+    · rw [applyAll_recoverSteps]
+    · rw [applyAll_recoverSteps]; exact hload
+    · have : filesOk (d.applyAll (recoverSteps d v)) { v with nextR := n, nextD := m } =
+          filesOk (d.applyAll (recoverSteps d v)) v := rfl
+      rw [this, filesOk_agree hag]
+      exact (view_ok_parts hv).2.2
+  · have : abs (d.applyAll (recoverSteps d v)) { v with nextR := n, nextD := m } =
+        abs (d.applyAll (recoverSteps d v)) v := rfl
+    rw [this, abs_agree hag]
+
+/-- Crash-inside-recovery at **every** position `k` and every progress of the step in flight
+(before, during or after the `rename`): the image opens, with the same contents. -/
+theorem recover_idempotent (d : Disk) (v : View) (hv : view d = .ok v) (k : Nat) (p : Option Progress) :
+    ∃ v', view (crash d (recoverSteps d v) k p) = .ok v' ∧ abs (crash d (recoverSteps d v) k p) v' = abs d v := by
+  by_cases hk : k < (recoverPrefix d v).length ∨ (k = (recoverPrefix d v).length ∧ p = none)
+  · exact ⟨v, recover_idempotent_partial d v hv k p hk⟩
+  · -- the rename happened: the image is the recovered directory
+    have himg : crash d (recoverSteps d v) k p = d.applyAll (recoverSteps d v) := by
+      have hlen : (recoverSteps d v).length = (recoverPrefix d v).length + 1 := by rw [recoverSteps_eq]; simp
+      rcases Nat.lt_trichotomy k (recoverPrefix d v).length with h | h | h
+      · exact absurd (Or.inl h) hk
+      · cases p with
+        | none => exact absurd (Or.inr ⟨h, rfl⟩) hk
+        | some pr =>
+          rw [recoverSteps_eq]
+          unfold crash
+          have htake : (recoverPrefix d v ++ [PStep.renameTmp]).take k = recoverPrefix d v := by rw [h]; simp
+          have hget : (recoverPrefix d v ++ [PStep.renameTmp])[k]? = some PStep.renameTmp := by rw [h]; simp
+          rw [htake, hget]
+          simp [Disk.applyAll, List.foldl_append, Disk.apply]
+      · have hle : (recoverSteps d v).length ≤ k := by omega
+        unfold crash
+        rw [List.take_of_length_le hle, List.getElem?_eq_none hle]
+    rw [himg]
+    obtain ⟨n, m, h1, h2⟩ := recover_after_rename d v hv
+    exact ⟨_, h1, h2⟩
+
+/-- `recover (recover d) = recover d` up to `abs`, for every `d` that opens. -/
+theorem recover_recover (d : Disk) (s : State) (h : recover d = .ok s) :
+    ∃ s', recover s.disk = .ok s' ∧ abs s'.disk s'.mem = abs s.disk s.mem := by
+  unfold recover at h
+  cases hv : view d with
+  | error e => simp [hv] at h
+  | ok v =>
+    simp only [hv] at h
+    cases h
+    obtain ⟨n, m, h1, h2⟩ := recover_after_rename d v hv
+    obtain ⟨n', m', _, h4⟩ := recover_after_rename _ _ h1
+    refine ⟨⟨(d.applyAll (recoverSteps d v)).applyAll (recoverSteps (d.applyAll (recoverSteps d v)) { v with nextR := n, nextD := m }),
+      { v with nextR := n, nextD := m }, []⟩, ?_, ?_⟩
+    · simp only [recover, h1]
+    simp only
+    have e1 : abs ((d.applyAll (recoverSteps d v)).applyAll (recoverSteps (d.applyAll (recoverSteps d v)) { v with nextR := n, nextD := m }))
+        { v with nextR := n, nextD := m } =
+        abs (d.applyAll (recoverSteps d v)) { v with nextR := n, nextD := m } := h4
+    rw [e1, h2]
+    -- the first recovery's own abstraction: same row-sets and files as before it
+    have h0 := agree_applyAll_harmless v (recoverPrefix d v) (recoverPrefix_harmless d v) d
+    have hag : Agree v d (d.applyAll (recoverSteps d v)) := by
+      rw [applyAll_recoverSteps]
+      exact ⟨fun x hx => h0.1.1 x hx, fun x hx => h0.1.2 x hx⟩
+    exact (abs_agree hag).symm
+
+/-! ## background vacuum -/
+
+/-- The vacuum task only unlinks directories nothing references: a crash anywhere among its
+unlinks (or among any steps of that kind) leaves the view and the contents untouched. -/
+theorem vacuum_crash_harmless (d : Disk) (v : View) (hv : view d = .ok v) (steps : List PStep)
+    (hf : ∀ s ∈ steps, Fresh v s) (k : Nat) (p : Option Progress) :
+    view (crash d steps k p) = .ok v ∧ abs (crash d steps k p) v = abs d v := by
+  have hh : ∀ x ∈ steps, Harmless v x := fun x hx => Or.inl (hf x hx)
+  -- pad with a harmless last step so that `crash_before_last` applies to every `k`
+  have key : ∀ k p, Agree v d (crash d steps k p) ∧ (crash d steps k p).recs = d.recs ∧ (crash d steps k p).torn = d.torn := by
+    intro k p
+    have h0 := agree_applyAll_harmless v (steps.take k) (fun x hx => hh x (List.mem_of_mem_take hx)) d
+    unfold crash
+    cases hg : steps[k]? with
+    | none => exact h0
+    | some s =>
+      cases p with
+      | none => exact h0
+      | some pr =>
+        have hs : s ∈ steps := List.mem_of_getElem? hg
+        have h1 := agree_apply_harmless v (d.applyAll (steps.take k)) s pr (hh s hs)
+        exact ⟨Agree.trans h0.1 h1.1, h1.2.1.trans h0.2.1, h1.2.2.trans h0.2.2⟩
+  have h := key k p
+  exact ⟨view_agree h.1 (by rw [h.2.1]) h.2.2 hv, abs_agree h.1⟩
+
+/-! ## the un-fsynced rename -/
+
+/-- FULL statement under a file system that may drop a `rename` whose directory was never
+fsynced (the code never fsyncs it): losing it at any later time still leaves every acknowledged
+statement visible. -/
+def LostRenameDurableFull : Prop :=
+  ∀ (s : State) (ops : List Op) (s' : State), view s.disk = .ok s.mem →
+    recover (loseRename (run s ops).disk) = .ok s' → abs s'.disk s'.mem = abs (run s ops).disk (run s ops).mem
+
+/-- Right after recovery nothing is at stake: with the rename lost the directory holds the old
+`manifest.json` next to a complete `manifest.tmp.json`; it opens to the same view and contents. -/
+theorem lost_rename_right_after_recovery (d : Disk) (v : View) (hv : view d = .ok v) :
+    view (loseRename (d.applyAll (recoverSteps d v))) = .ok v ∧
+      abs (loseRename (d.applyAll (recoverSteps d v))) v = abs d v := by
+  have h0 := agree_applyAll_harmless v (recoverPrefix d v) (recoverPrefix_harmless d v) d
+  have hag : Agree v d (loseRename (d.applyAll (recoverSteps d v))) := by
+    rw [applyAll_recoverSteps]
+    exact ⟨fun x hx => h0.1.1 x hx, fun x hx => h0.1.2 x hx⟩
+  have hrecs : (loseRename (d.applyAll (recoverSteps d v))).recs = d.recs := by
+    rw [applyAll_recoverSteps]; simp [loseRename, h0.2.1]
+  have htorn : (loseRename (d.applyAll (recoverSteps d v))).torn = d.torn := by
+    rw [applyAll_recoverSteps]; simp [loseRename, (view_ok_parts hv).1]
+  exact ⟨view_agree hag (by rw [hrecs]) htorn hv, abs_agree hag⟩
+
+/-- …but statements acknowledged *after* that recovery are appended to the renamed file; if the
+rename is lost later they are in `manifest.tmp.json`, which the next boot truncates. Witness:
+boot, `CREATE TABLE t`, rename lost ⇒ the table is gone. -/
+def lostRenameState : State :=
+  ⟨⟨3, [.begin, .fin], false, none, [], [], some []⟩, View.empty, []⟩
+
+theorem lost_rename_durable_unsound : ¬ LostRenameDurableFull := by
+  intro h
+  have hr : ∃ s', recover (loseRename (run lostRenameState [.create "t" 2]).disk) = .ok s' ∧
+      abs s'.disk s'.mem ≠ abs (run lostRenameState [.create "t" 2]).disk (run lostRenameState [.create "t" 2]).mem := by
+    refine ⟨⟨⟨3, [.begin, .fin], false, none, [], [], some []⟩, View.empty, []⟩, rfl, by decide⟩
+  obtain ⟨s', h1, h2⟩ := hr
+  exact h2 (h lostRenameState [.create "t" 2] s' rfl h1)
+
 /-! ## post-recovery statements -/
 
 /-- FULL statement: after recovering any crash image of a DELETE, a following DELETE on the same
@@ -256,8 +432,8 @@ DELETE's file is issued again: the next DELETE fails on `create_new` (`AlreadyEx
 `DELETE FROM t WHERE a >= 3` interrupted after its DV file was written, then recovered. -/
 def orphanDvState : State :=
   ⟨⟨3, [.begin, .createTable "t" 2, .addRowSet 0 0, .fin], false, none,
-      [⟨0, 0, [[2, 5], [3, 6]], 4, 4, false⟩], []⟩,
-   ⟨[⟨"t", 0, 2⟩], 1, [.createTable "t" 2], [(0, 0)], [], 1, 0⟩⟩
+      [⟨0, 0, [[2, 5], [3, 6]], 4, 4, false⟩], [], none⟩,
+   ⟨[⟨"t", 0, 2⟩], 1, [.createTable "t" 2], [(0, 0)], [], 1, 0⟩, []⟩
 
 /-- The state after recovering the crash image (DV file written, manifest not appended). -/
 def orphanRecovered : State :=
